@@ -22,8 +22,8 @@ def gen_plan(rng, m, S, maxmsgs=4):
     return plans
 
 
-def plan_str(plans):
-    return ";".join("%s:%s" % (",".join(str(x) for x in l), "h" if h else "k") for l, h in plans)
+def plan_str(plans, late=None):
+    return ";".join("%s:%s%s" % (",".join(str(x) for x in l), "h" if h else "k", "L" if late and late[i] else "") for i, (l, h) in enumerate(plans))
 
 
 def rset_oracle(it):
@@ -33,8 +33,16 @@ def rset_oracle(it):
     if rec["hang"]:
         return "select went on blocking although messages or closures were pending (watchdog)"
     ids = rec["ids"]
-    if len(set(ids)) != len(ids):
-        return "two members of the set share an id: %s" % ids
+    if None in ids:
+        return "a member was never added (select blocked before the late members could be added?)"
+    late = c.get("late") or [False] * len(ids)
+    # members that are in the set at the same time: all early ones with each other; a late one with every member that is
+    # still in the set when it is added (early members that never close) and with the other late ones
+    for i in range(len(ids)):
+        for j in range(i + 1, len(ids)):
+            together = (late[i] == late[j]) or (not c["plans"][i][1] if not late[i] else not c["plans"][j][1])
+            if together and ids[i] == ids[j]:
+                return "two members that are in the set at the same time share the id %s (members %d and %d)" % (ids[i], i, j)
     member_of = {rid: i for i, rid in enumerate(ids)}
     per = {}
     for b in rec["batches"]:
@@ -140,12 +148,19 @@ def check_C06(chk):
     n = 1500 if thorough else 60
     for k in range(n):
         m = rng.choice([1, 2, 5, 9, 10, 11, 12, 25, 40, 64]) if k % 2 else rng.randint(1, 64)
-        mode = ["after", "before", "during"][k % 3]
-        cases.append({"id": next(nid), "plans": gen_plan(rng, m, S), "mode": mode, "threads": 1 if mode == "after" else rng.randint(1, 8),
-                      "eintr": 3 if k % 4 == 0 else 0})
+        mode = ["after", "before", "during", "phased"][k % 4]
+        plans = gen_plan(rng, m, S)
+        late = [False] * m
+        if mode == "phased":
+            # early members (some closing, some staying) first; the late ones are added after those closures were reported
+            late = [i >= (m + 1) // 2 for i in range(m)]
+            if all(late):
+                late[0] = False
+        cases.append({"id": next(nid), "plans": plans, "late": late, "mode": mode, "threads": 1 if mode == "after" else rng.randint(1, 8),
+                      "eintr": 3 if k % 5 == 0 else 0})
 
     def run(chunk, binp=None, shim=True):
-        lines = ["id=%d plan=%s mode=%s threads=%d eintr=%d" % (c["id"], plan_str(c["plans"]), c["mode"], c["threads"], c["eintr"]) for c in chunk]
+        lines = ["id=%d plan=%s mode=%s threads=%d eintr=%d" % (c["id"], plan_str(c["plans"], c.get("late")), c["mode"], c["threads"], c["eintr"]) for c in chunk]
         recs, trace, rc, err = C.run_harness(binp or bins["default"], "rset", lines, env_extra={"VSHIM_SNDBUF": S}, shim=shim, timeout=900)
         by = {r["id"]: r for r in recs if r.get("kind") == "rset"}
         aborted = any(r.get("kind") == "aborted" for r in recs)
@@ -184,12 +199,12 @@ def check_C06(chk):
     cov["distinct_nontrivial"] = len({plan_str(it["case"]["plans"]) + it["case"]["mode"] for it in items if len(it["case"]["plans"]) > 10 or it["case"]["mode"] != "after"})
     cov["correspondence_mismatches"] = len(bad)
     cov["rule"] = ("rset driver: sets of 1..64 members (more than the batch capacity of 10 ready at once), 0..4 messages per member of mixed single/multi-packet sizes, "
-                   "senders dropped or kept, 1..8 sender threads, members added before, during and after the traffic, EINTR injected into every 3rd wait; per-member "
+                   "senders dropped or kept, 1..8 sender threads, members added before, during and after the traffic and - phased - after earlier members' closures were reported, EINTR injected into every 3rd wait; per-member "
                    "event oracle (messages in order, intact, tagged with the member's id, exactly one closure at the end, distinct ids); the selecting thread's system "
                    "calls must follow the edge-trigger discipline (every batch entry drained to EWOULDBLOCK or closure, wait again after EINTR, capacity 10, EPOLLET); "
                    "the sequential scenarios are replayed on the RSet LTS and the exact event order compared; in-process build: oracle only; "
                    "non-trivial = more than 10 members or concurrent traffic")
-    cov["input_distribution"] = {"modes": {m: sum(1 for it in items if it["case"]["mode"] == m) for m in ("after", "before", "during")},
+    cov["input_distribution"] = {"modes": {m: sum(1 for it in items if it["case"]["mode"] == m) for m in ("after", "before", "during", "phased")},
                                  "members": {"<=10": sum(1 for it in items if len(it["case"]["plans"]) <= 10), ">10": sum(1 for it in items if len(it["case"]["plans"]) > 10)},
                                  "with_eintr": sum(1 for it in items if it["case"]["eintr"])}
     for it in seq_items[:2]:
@@ -216,14 +231,15 @@ def gen_router_cases(rng, n, stops):
             plan.append((rng.choice([0, 0, 1, 3, 10, 50]) if rng.random() < 0.6 else 0, rng.choice([0, 1, 2, 5, 20, 50]),
                          rng.random() < 0.6, rng.random() < 0.3))
         stop = stops[k % len(stops)]
-        cases.append({"id": k + 1, "plan": plan, "threads": rng.randint(1, 8), "stop": stop, "nshut": rng.randint(1, 4), "late": rng.randint(0, 3) if stop == "shutdown" else 0})
+        cases.append({"id": k + 1, "plan": plan, "threads": rng.randint(1, 8), "stop": stop, "nshut": rng.randint(1, 4), "late": rng.randint(0, 3) if stop == "shutdown" else 0,
+                      "wave2": rng.choice([0, 1, 3]) if r else 0, "slowdrop": rng.choice([0, 300, 1500]) if stop == "shutdown" else 0})
     return cases
 
 
 def router_line(c):
-    return "id=%d plan=%s threads=%d stop=%s nshut=%d late=%d" % (
+    return "id=%d plan=%s threads=%d stop=%s nshut=%d late=%d wave2=%d slowdrop=%d" % (
         c["id"], ";".join("%d,%d,%d,%s" % (b, a, 1 if d else 0, "x" if x else "c") for b, a, d, x in c["plan"]) or "0,0,1,c",
-        c["threads"], c["stop"], c["nshut"], c["late"])
+        c["threads"], c["stop"], c["nshut"], c["late"], c.get("wave2", 0), c.get("slowdrop", 0))
 
 
 def router_oracle(c, rec, prop):
@@ -253,7 +269,8 @@ def router_oracle(c, rec, prop):
         calls = [e for e in evs if e[0] == "call"]
         if any(e[0] == "badmsg" for e in evs):
             return "route %d: callback received an undecodable message" % i
-        if [e[3] for e in calls if e[3] != 9999] != list(range(b + a)) or any(e[2] != i for e in calls):
+        extra = 1 if (c.get("wave2", 0) and not d) else 0
+        if [e[3] for e in calls if e[3] != 9999] != list(range(b + a + extra)) or any(e[2] != i for e in calls):
             return "route %d: callback invoked with %s instead of its %d messages once each in order" % (i, [(e[2], e[3]) for e in calls][:8], b + a)
         drops = [k for k, e in enumerate(evs) if e[0] == "drop"]
         if len(drops) > 1:
@@ -264,11 +281,22 @@ def router_oracle(c, rec, prop):
             return "route %d: callback never dropped although %s" % (i, "its channel disconnected" if d else "the router was stopped (%s)" % rec["stop"])
         if not d and not stopped and drops:
             return "route %d: callback dropped although its channel is still connected" % i
+    for j in range(c.get("wave2", 0)):
+        h = 500 + j
+        evs = per.get(h, [])
+        if [(e[2], e[3]) for e in evs if e[0] == "call"] != [(h, 0), (h, 1)]:
+            return ("route %d, registered after earlier routes had closed while others were live, got %s instead of its two messages"
+                    % (h, [(e[2], e[3]) for e in evs if e[0] == "call"][:6]))
     if rec["stop"] == "shutdown":
         if not rec["stop_ok"]:
             return "shutdown() did not return (deadlock) with %d callers racing add_route" % c["nshut"]
         if any(e[0] == "call" for e in rec["log_after"]):
             return "a callback was invoked after shutdown() had returned: %s" % rec["log_after"][:4]
+        ncb = sum(1 for (b, a, d, x) in plan if not x)
+        for nd in rec.get("drops_at_return", []):
+            if nd < ncb:
+                return ("at the instant shutdown() returned only %d of %d registered callbacks had been dropped (whatever they own is still alive; "
+                        "callbacks take %d us to release what they own)" % (nd, ncb, c.get("slowdrop", 0)))
         at = rec["log_before_stop"] + rec["log_at_return"]
         for i, (b, a, d, x) in enumerate(plan):
             if not x and not any(e[0] == "drop" and e[1] == i for e in at):
@@ -299,6 +327,14 @@ def router_model_term(c, rec):
         pre += ["REvMsg %d" % (i + 1)] * (a + b)
         if d:
             pre += ["PHup %d" % i, "REvClosed %d" % (i + 1)]
+    nr = len(plan)
+    for j in range(c.get("wave2", 0)):
+        ch = nr + j
+        pre += ["PNewChan", "PAddRoute %d %d" % (ch, 500 + j), "REvWake", "PSend %d 0" % ch, "PSend %d 1" % ch, "REvMsg %d" % (ch + 1), "REvMsg %d" % (ch + 1)]
+    if c.get("wave2", 0):
+        for i, (b, a, d, x) in enumerate(plan):
+            if not d and not x:
+                pre += ["PSend %d %d" % (i, b + a), "REvMsg %d" % (i + 1)]
     stopped = "false"
     if rec["stop"] == "shutdown":
         pre += ["PShutdown", "REvWake", "PAckWait"]
